@@ -6,6 +6,8 @@ from ..decks import WORLD_SURF
 from ..judge import convert_deck, crash_violation
 
 ID = 'C12'
+UPSTREAM_DECKS = 'all'
+UPSTREAM_POINTS = False
 LEVEL = 'exploration'
 RULE = ('decks of 4-14 nested spherical shells (all non-empty) whose '
         'importances come from cell-card keywords (one or several particle '
@@ -252,6 +254,47 @@ def shorthand(rng, kind, total):
 
 
 NOTE_RE = re.compile(r'importance is equal to zero:\s*\[([^\]]*)\]')
+
+
+def upstream_judge(out, deck, sides, t4, name, run_=None):
+    '''The repository's example decks: no volume comes from a level-0 cell
+    of zero importance, and the end-of-run note lists exactly those cells.
+    (Whether a live cell is converted is judged by the region oracle under
+    the deck's own property: an example deck may hold empty cells.)'''
+    level0 = [c for c in deck.cells if not c.u]
+    try:
+        zero = [c.id for c in level0 if deck.importance_zero(c)]
+    except (ValueError, IndexError, TypeError):
+        out.counters['upstream_importance_not_understood'] += 1
+        return
+    written = {(vol.chain[-1][1] if vol.chain else vid)
+               for vid, vol in t4.volus.items() if not vol.fictive}
+    out.judged += len(level0)
+    out.counters['cells_judged'] += len(level0)
+    out.counters['zero_cells'] += len(zero)
+    extra = sorted(written & set(zero))
+    if extra:
+        out.violation('zero-cell-converted', f'{name}: cells {extra} have '
+                      'zero importance but were converted')
+    match = NOTE_RE.search(run_.stdout)
+    noted = []
+    if match:
+        noted = [int(tok) for tok in match.group(1).split(',') if tok.strip()]
+    level0_ids = {c.id for c in level0}
+    uni_zero = set()
+    for cel in deck.cells:
+        if cel.u:
+            try:
+                if deck.importance_zero(cel):
+                    uni_zero.add(cel.id)
+            except (ValueError, IndexError, TypeError):
+                pass
+    noted0 = [n for n in noted if n in level0_ids]
+    stray = [n for n in noted if n not in level0_ids and n not in uni_zero]
+    if noted0 != zero or stray:
+        out.violation('note-list', f'{name}: NOTE lists {noted}, '
+                      f'zero-importance level-0 cells in card order are '
+                      f'{zero}')
 
 
 def run(case, ctx):
